@@ -11,6 +11,7 @@ Facts (each one is the presence / order of statements, checked on comment-stripp
   cbChecksSchedId      janet_thread_chan_cb delivers only if fiber->sched_id == sched_id
   increfBeforeSend     marshal_one_abstract: janet_abstract_incref before the pointer of a threaded abstract is written
   unmarshalAccounts    unmarshal LB_THREADED_ABSTRACT: new table entry takes over the in-transit reference, else decref
+  unmarshalKnownTestIsAbsent  ... and "new" means the key is absent (janet_checktype(check, JANET_NIL)), not "value is false"
   sweepDecrefFrees     gc sweep: unvisited threaded abstract -> decref, finalize+free at 0, entry removed
   completionAfterBody  janet_thread_body: subr(msg) is evaluated before the completion record is written to the pipe
 plus lock-discipline counts (critical sections are atomic steps in the model): any change there is an ExtractError
@@ -153,6 +154,9 @@ def extract(tree):
     flags["unmarshalAccounts"] = bool(re.search(r"janet_table_get\s*\(\s*&janet_vm\.threaded_abstracts", ub)
                                       and re.search(r"janet_table_put\s*\(\s*&janet_vm\.threaded_abstracts[^;]*janet_wrap_false", ub)
                                       and re.search(r"else\s*\{\s*janet_abstract_decref\s*\(\s*u\.ptr\s*\)", ub))
+    # the "already registered?" test must be the ABSENCE of the key: entries hold `false` between mark phases
+    mg = re.search(r"Janet\s+(\w+)\s*=\s*janet_table_get\s*\(\s*&janet_vm\.threaded_abstracts\s*,\s*\*out\s*\)\s*;", ub)
+    flags["unmarshalKnownTestIsAbsent"] = bool(mg and re.search(r"if\s*\(\s*janet_checktype\s*\(\s*%s\s*,\s*JANET_NIL\s*\)\s*\)\s*\{[^}]*janet_table_put" % mg.group(1), ub, re.S))
     sw = func_body(gc, "janet_sweep")
     flags["sweepDecrefFrees"] = bool(re.search(r"if\s*\(\s*!\s*janet_truthy\s*\(\s*items\[i\]\.value\s*\)\s*\)\s*\{[^}]*if\s*\(\s*0\s*==\s*janet_abstract_decref\s*\(\s*abst\s*\)\s*\)", sw, re.S)
                                      and "janet_free(janet_abstract_head(abst))" in sw)
